@@ -100,3 +100,33 @@ Proof.
   intros H Hk. destruct (truncated_reply_rejected _ _ _ H k Hk) as (e & He & Hne). exists e. split; [|exact Hne].
   cbn [run_generator]. cbn. rewrite He. reflexivity.
 Qed.
+
+(* C07, stated from the side of what must not happen: a write attempt, a printed generator message or a generator error can
+   only exist when compilation reported no error and --dry-run was not given *)
+Theorem file_written_only_after_clean_compile c r : In r (gen_results c) ->
+  has_errors (rc_diags c) = false /\ rc_dry_run c = false.
+Proof.
+  intros Hin. destruct (generation_runs c) eqn:G.
+  - unfold generation_runs in G. apply andb_true_iff in G as [G1 G2]. apply negb_true_iff in G1. apply negb_true_iff in G2. auto.
+  - rewrite (nothing_started_otherwise c G) in Hin. destruct Hin.
+Qed.
+(* one error anywhere among the diagnostics, whatever surrounds it: nothing is started and the status is 1 *)
+Theorem one_error_stops_everything c d : In d (rc_diags c) -> d_lint d = None -> gen_results c = [] /\ exit_status c = 1.
+Proof.
+  intros Hin E. assert (HE : has_errors (rc_diags c) = true) by (apply has_errors_iff; eauto). split.
+  - apply nothing_started_otherwise. unfold generation_runs. rewrite HE. reflexivity.
+  - assert (X : exit_status c <> 0) by (apply exit_status_iff; auto). unfold exit_status in *. destruct (Nat.eqb (error_count c) 0); congruence.
+Qed.
+(* warnings only: the status is 0 under --dry-run, and otherwise 0 exactly when every generator and every write succeeded *)
+Theorem warnings_only_status c : (forall d, In d (rc_diags c) -> d_lint d <> None) ->
+  exit_status c = 0 <-> (rc_dry_run c = true \/ forall r, In r (gen_results c) -> gen_errors r = 0).
+Proof.
+  intros W. assert (HE : has_errors (rc_diags c) = false).
+  { destruct (has_errors (rc_diags c)) eqn:X; [|reflexivity]. apply has_errors_iff in X as (d & Hd & E). exfalso. exact (W d Hd E). }
+  pose proof (exit_status_iff c) as S. rewrite HE in S. split.
+  - intros Z. destruct (rc_dry_run c) eqn:D; [left; reflexivity|right]. intros r Hr.
+    destruct (Nat.eq_dec (gen_errors r) 0) as [|N]; [assumption|]. exfalso. apply (proj2 S); [|exact Z].
+    right. split; [unfold generation_runs; rewrite HE, D; reflexivity|eauto].
+  - intros H. destruct (Nat.eq_dec (exit_status c) 0) as [|N]; [assumption|]. exfalso. apply S in N as [N|(G & r & Hr & Nr)]; [discriminate|].
+    destruct H as [D|H]; [|exact (Nr (H r Hr))]. unfold generation_runs in G. rewrite D in G. rewrite andb_false_r in G. discriminate.
+Qed.
